@@ -8,8 +8,11 @@ theorem i128_ok (x : Int) (h0 : -(170141183460469231731687303715884105728 : Int)
     (h1 : x < 170141183460469231731687303715884105728) : i128 x = .ok x := by
   unfold i128; rw [if_pos ⟨h0, h1⟩]
 
-theorem u16_ok (x : Int) (h0 : 0 ≤ x) (h1 : x < 65536) : u16 x = .ok x.toNat := by
-  unfold u16; rw [if_pos ⟨h0, h1⟩]
+theorem u16N_ok (x : Nat) (h1 : x < 65536) : u16N x = .ok x := by
+  unfold u16N; rw [if_pos h1]
+
+theorem usizeN_ok (x : Nat) (h1 : x < 18446744073709551616) : usizeN x = .ok x := by
+  unfold usizeN; rw [if_pos h1]
 
 theorem usize_ok' (x : Int) (h0 : 0 ≤ x) (h1 : x < 18446744073709551616) : usize x = .ok x.toNat := by
   unfold usize; rw [if_pos ⟨h0, h1⟩]
@@ -125,13 +128,9 @@ theorem advanceChar_ok (p : Pos) (c : Char) (h : p.line ≤ 65535 ∧ p.col ≤ 
     ∃ q, advanceChar p c = .ok q ∧ q.line ≤ 65535 ∧ q.col ≤ 65535 := by
   unfold advanceChar
   split
-  · have : u16 ((min (p.line + 1) 65535 : Nat) : Int) = .ok (min (p.line + 1) 65535) := by
-      rw [u16_ok _ (by omega) (by omega)]; simp
-    rw [this]
+  · rw [u16N_ok _ (by omega)]
     exact ⟨⟨min (p.line + 1) 65535, 0⟩, rfl, by simp; omega, by simp⟩
-  · have : u16 ((min (p.col + 1) 65535 : Nat) : Int) = .ok (min (p.col + 1) 65535) := by
-      rw [u16_ok _ (by omega) (by omega)]; simp
-    rw [this]
+  · rw [u16N_ok _ (by omega)]
     exact ⟨⟨p.line, min (p.col + 1) 65535⟩, rfl, h.1, by simp; omega⟩
 
 theorem advance_ok (text : List Char) : ∀ (p : Pos), p.line ≤ 65535 ∧ p.col ≤ 65535 →
@@ -143,5 +142,31 @@ theorem advance_ok (text : List Char) : ∀ (p : Pos), p.line ≤ 65535 ∧ p.co
     obtain ⟨q, hq, hq2⟩ := advanceChar_ok p c h
     obtain ⟨r, hr, hr2⟩ := ih q hq2
     exact ⟨r, by unfold advance; rw [hq]; exact hr, hr2⟩
+
+theorem widen_self_ok (c : Nat) (h : c ≤ 65535) : widen c c = .ok (min (c + 1) 65535) := by
+  unfold widen
+  rw [if_pos rfl, u16N_ok _ (by omega)]
+
+theorem caretCount_ok (a b : Nat) (hb : b ≤ 65535) : caretCount a b = .ok (b - a) := by
+  unfold caretCount
+  rw [usizeN_ok _ (by omega)]
+
+theorem lexErrK_of (text : List Char) (q : Pos) (e c : Nat) (h1 : advance ⟨1, 0⟩ text = .ok q)
+    (h2 : widen q.col q.col = .ok e) (h3 : caretCount q.col e = .ok c) :
+    lexErrK text = .ok { allocs := [q.col, c], res := .ok (q.line, q.col, c) } := by
+  unfold lexErrK
+  rw [h1]
+  simp only
+  rw [h2]
+  simp only
+  rw [h3]
+
+/-- closed form of the lexer-error kernel -/
+theorem lexErrK_eq (text : List Char) : ∃ q : Pos, ∃ c : Nat, q.line ≤ 65535 ∧ q.col ≤ 65535 ∧ c ≤ 65535 ∧
+    lexErrK text = .ok { allocs := [q.col, c], res := .ok (q.line, q.col, c) } := by
+  obtain ⟨q, hq, hq1, hq2⟩ := advance_ok text ⟨1, 0⟩ (by simp)
+  have hm : min (q.col + 1) 65535 ≤ 65535 := Nat.min_le_right _ _
+  exact ⟨q, _, hq1, hq2, Nat.le_trans (Nat.sub_le _ _) hm,
+    lexErrK_of text q _ _ hq (widen_self_ok q.col hq2) (caretCount_ok q.col _ hm)⟩
 
 end MJ.Kernels
